@@ -235,7 +235,9 @@ def _unique_name(params: Any) -> str:
     if all_scalar:
         # Format: `pname1=pval1 pname2=pval2 pname3=pval3`
         keys = params.__params__.keys()
-        name = " ".join(f"{k}={str(getattr(params, k))}" for k in keys)
+        # Equal values get equal names: negative zero equals zero.
+        text = lambda v: str(0.0 if isinstance(v, float) and v == 0 else v)
+        name = " ".join(f"{k}={text(getattr(params, k))}" for k in keys)
 
         # These names must also be limited in length, for sake of our favorite output formats.
         # If the generated name is too long, use the hashing method below instead
